@@ -727,6 +727,13 @@ def origins(body, start_locals, through_calls=True, stop_calls=None, follow_muta
     return o
 
 
+REF_PASSTHROUGH = {'deref_mut', 'as_mut_slice', 'as_mut', 'borrow_mut', 'get_mut', 'index_mut', 'by_ref', 'as_mut_ptr', 'iter_mut', 'as_deref_mut'}
+
+
+def mutarg_defs(body):
+    return _mutarg_defs(body)
+
+
 def _mutarg_defs(body):
     """local -> list of (bb, Term, argidx): calls receiving a &mut (or raw mut) pointer into local"""
     if getattr(body, '_mutarg', None) is not None:
@@ -759,10 +766,40 @@ def _mutarg_defs(body):
                             if new:
                                 refmap[s.place[0]] |= new
                                 changed = True
+    # references returned by pass-through accessors (deref_mut, as_mut_slice, ...) point into the same base
+    changed = True
+    while changed:
+        changed = False
+        for b in body.blocks:
+            t = b.term
+            if t.kind == 'call' and t.cmethod in REF_PASSTHROUGH and t.args and t.dest is not None and not t.dest[1]:
+                a = t.args[0]
+                if a.place is not None and not a.place[1] and a.place[0] in refmap and body.lty(t.dest[0]).startswith(('&mut', '*mut')):
+                    new = refmap[a.place[0]] - refmap[t.dest[0]]
+                    if new:
+                        refmap[t.dest[0]] |= new
+                        changed = True
+        for b in body.blocks:
+            for s in b.stmts:
+                if s.kind == 'assign' and not s.place[1]:
+                    rv = s.rv
+                    srcs = []
+                    if rv.r in ('use', 'cast') and rv.ops and rv.ops[0].place is not None and not rv.ops[0].place[1]:
+                        srcs.append(rv.ops[0].place[0])
+                    if rv.r in ('ref', 'rawptr') and rv.j.get('mut') and rv.place[1] and rv.place[1][0] == ('deref',):
+                        srcs.append(rv.place[0])
+                    for src in srcs:
+                        if src in refmap:
+                            new = refmap[src] - refmap[s.place[0]]
+                            if new:
+                                refmap[s.place[0]] |= new
+                                changed = True
     res = collections.defaultdict(list)
     for b in body.blocks:
         t = b.term
         if t.kind == 'call':
+            if t.cmethod in REF_PASSTHROUGH:
+                continue
             for ai, a in enumerate(t.args):
                 if a.place is not None and not a.place[1] and a.place[0] in refmap:
                     for base in refmap[a.place[0]]:
